@@ -2,8 +2,6 @@ package pktb
 
 import (
 	"encoding/binary"
-	"fmt"
-	"os"
 	"sort"
 	"testing"
 	"time"
@@ -325,13 +323,11 @@ func runC08(outer *testing.T) func(t rapid.TB, c sdCase, rec *vx.Case) {
 			before := w.Snapshot(ch)
 			var ok bool
 			var seq uint64
-			var lastErr error
 			viaTx := true
 			switch op.K {
 			case "m1":
 				viaTx = false
 				p, err := w.SendV1(l, dir, th, ts, sim.Script{N: i, Out: "ok"}.Bytes())
-				lastErr = err
 				if ok = err == nil; ok {
 					seq = p.P1.Sequence
 				}
@@ -346,7 +342,6 @@ func runC08(outer *testing.T) func(t rapid.TB, c sdCase, rec *vx.Case) {
 					msg = transfertypes.NewMsgTransferAliased(transfertypes.PortID, srcID, coin, sender, recv, clienttypes.ZeroHeight(), tsec, "")
 				}
 				res := w.Deliver(ch, op.Sig, msg)
-				lastErr = res.Err
 				if ok = res.OK; ok {
 					var r transfertypes.MsgTransferResponse
 					if !decodeSeq(res, &r) {
@@ -356,7 +351,6 @@ func runC08(outer *testing.T) func(t rapid.TB, c sdCase, rec *vx.Case) {
 				}
 			default: // v2, ma, xa
 				p, res := w.SendV2(l, dir, op.Sig, tsec, sim.MockPayload("A", sim.Script{N: i, Out: "ok"}))
-				lastErr = res.Err
 				if ok = res.OK; ok {
 					seq = p.P2.Sequence
 				}
@@ -380,9 +374,6 @@ func runC08(outer *testing.T) func(t rapid.TB, c sdCase, rec *vx.Case) {
 					}
 				} else {
 					rec.Add("sends_rejected_model_would_accept", 1) // converse: health only
-					if os.Getenv("PKTB_DEBUG") != "" {
-						fmt.Fprintf(os.Stderr, "SENDREJ %s th=%s ts=%d tsec=%d err=%.300v\n", op.K, th, ts, tsec, lastErr)
-					}
 				}
 			} else {
 				rec.Add("sends_ok", 1)
